@@ -130,7 +130,14 @@ class Evaluator:
         self.repo = repo
         self.hooks = hooks or {}
         self.opaque = opaque
-        self.externals = externals or {}  # global name -> python callable standing in for a function the evaluation does not follow
+        # global name -> python callable standing in for a function the evaluation does not follow; the standard-library helpers a codec may be
+        # written with (struct, BytesIO, math) are always available -- they are pure functions of their arguments
+        import math as _m
+        import struct as _st
+        self.externals = {"struct": Namespace(pack=_st.pack, unpack=lambda f_, b_: _st.unpack(f_, bytes(b_)), calcsize=_st.calcsize), "pack": _st.pack,
+                          "unpack": lambda f_, b_: _st.unpack(f_, bytes(b_)), "BytesIO": lambda b_=b"": FileStandIn(bytes(b_)),
+                          "math": Namespace(ceil=_m.ceil, floor=_m.floor, log=_m.log, log2=_m.log2, sqrt=_m.sqrt), "ceil": _m.ceil, "floor": _m.floor}
+        self.externals.update(externals or {})
         self.method_hooks = method_hooks or {}  # (class name, method name) -> python callable(args) standing in for the method
         self.steps = 0
         self.max_steps = max_steps
@@ -798,6 +805,10 @@ class Evaluator:
                 return f[1](*args, **kw)
             except (ValueError, TypeError, OverflowError) as x:
                 raise Raised(type(x).__name__, e)
+            except Exception as x:
+                if type(x).__name__ == "error":  # struct.error
+                    raise Raised("error", e)
+                raise
         if isinstance(f, tuple) and f and f[0] == "pymethod":
             try:
                 r_ = getattr(f[1], f[2])(*args, **kw)
